@@ -39,7 +39,7 @@ def _one(i):
 
 def run(prop, sources, base_findings):
     _CTX.update(prop=prop, sources=sources, base={f.key() for f in base_findings})
-    idx = [i for i, s in enumerate(SEEDS) if s["property"] in (prop, "*")]
+    idx = [i for i, s in enumerate(SEEDS) if s["property"] in (prop, "*") or prop in s.get("properties", ())]
     workers = min(16, os.cpu_count() or 2)
     try:
         import multiprocessing
